@@ -18,6 +18,9 @@ SCEN = {
         "assign-global x spawn": sc([[S], ["spawn"]], 28, []),
         "assign-global x exiting thread": sc([[S], [U]], 28, []),
         "collect x exiting thread": sc([[G], [U]], 28, []),
+        # the collection is already under way (heap lock held) when the assignment begins: on the pinned tree the
+        # assigning thread waits for the heap lock inside a safepoint, so the two world-stoppers cannot meet in this order
+        "collect (under way) x assign-global": sc([[G], [S]], 30, ["gc-first"]),
     },
     "thorough": {
         "collect x assign-global": sc([[G], [S]], 30, [], TS),
@@ -31,6 +34,8 @@ SCEN = {
         "collect x spawn": sc([[G], ["spawn"]], 36, []),
         "assign-global x exiting thread": sc([[S], [U]], 36, []),
         "collect x exiting thread": sc([[G], [U]], 36, []),
+        "collect (under way) x assign-global": sc([[G], [S]], 40, ["gc-first"]),
+        "collect (under way) x define-global": sc([[G], [D]], 40, ["gc-first"]),
         # K = 60 covers one COMPLETE stop-scan-resume cycle and the other thread's wake-up after it
         # (measured: unsat in 2181 s on a loaded machine; own cap of 2 h)
         "assign-global x primitive-call, whole cycle": sc([[S], [P]], 60, []) + (7200,),
@@ -42,7 +47,11 @@ def _replay(r):
     ops = [op for _, prog in r["spec"] for op in prog]
     if "spawn" in ops or r["name"].endswith("exiting thread"):
         # no forced schedule: stress with a single stopper and a watchdog
+        if G in ops and S not in ops and D not in ops:
+            return "stress_progress", {"VERIF_SYNC_STOPPER": "gc", "VERIF_SYNC_ROUNDS": "240"}
         return "stress_progress", {}
+    if r["name"].startswith("collect (under way)"):
+        return "gc_first", {}
     return "two_stoppers", {}
 
 
